@@ -7,6 +7,7 @@
 //!   "expr": <AST json> (C11: print this expression instead of parsing text).
 //! Output: one line per job: {"q", "ast", "obs", "ms"} or {"q", "crash": ...}.
 //!
+//!   rv-eval dump <ctx> <out.json>   canonical JSON dump of the loaded registry
 //!   rv-eval tznames      prints the time zone names chrono-tz knows, one per line
 use rink_core::output::fmt::TokenFmt;
 use rink_core::parsing::text_query::{parse_expr, parse_query, TokenIterator};
@@ -65,6 +66,15 @@ fn run_job(ctx: &mut Context, job: &Value) -> Value {
         let back = parse_expr(&mut it);
         return json!({"printed": text(&printed), "same": back == e, "back": expr_json(&back), "orig": expr_json(&e)});
     }
+    if job["lookup"].is_array() {
+        // C07: Context::lookup / canonicalize of a name
+        let name = untext(&job["lookup"]);
+        let v = ctx.lookup(&name);
+        let c = ctx.canonicalize(&name);
+        let cv = c.as_ref().and_then(|c| ctx.lookup(c));
+        return json!({"q": text(&name), "lookup": v.as_ref().map(rv_harness::obs::number_json),
+                      "canon": c.as_ref().map(|c| text(c)), "canon_lookup": cv.as_ref().map(rv_harness::obs::number_json)});
+    }
     let q = job_text(job);
     let mut it = TokenIterator::new(q.trim()).peekable();
     let query = parse_query(&mut it);
@@ -101,6 +111,13 @@ fn main() {
         for tz in chrono_tz::TZ_VARIANTS.iter() {
             println!("{}", tz.name());
         }
+        return;
+    }
+    if args.get(1).map(|s| s.as_str()) == Some("dump") {
+        // rv-eval dump <ctx> <out.json>
+        let ctx = make_ctx(&args[2], false);
+        let v = rv_harness::dump::registry_json(&ctx);
+        std::fs::write(&args[3], serde_json::to_string(&v).unwrap()).expect("write dump");
         return;
     }
     if args.get(1).map(|s| s.as_str()) != Some("run") {
